@@ -145,42 +145,24 @@ func (m ClientState) RestrictChain(cdc codec.BinaryCodec, store sdk.KVStore, new
 	si, ti := m.Header.Height, new.Height
 	var err error
 	current := m.Header
-	//si > ti
-	if si.RevisionHeight > ti.RevisionHeight {
-		ConsensusTmp := store.Get(host.ConsensusStateKey(ti))
-		if ConsensusTmp == nil {
+	// si > ti: walk the head's own ancestry down to the height of the new header
+	for si.RevisionHeight > ti.RevisionHeight {
+		currentTmp := GetParentHeaderFromIndex(store, current)
+		if currentTmp == nil {
 			return sdkerrors.Wrapf(
-				clienttypes.ErrInvalidConsensus, "can not find consensus state for height %s in RestrictChain", ti)
-		}
-		var tiConsensus exported.ConsensusState
-		if err = cdc.UnmarshalInterface(ConsensusTmp, &tiConsensus); err != nil {
-			return sdkerrors.Wrapf(ErrUnmarshalInterface, "can not unmarshal ConsensusState interface in RestrictChain ")
-
-		}
-		tmpConsensus, ok := tiConsensus.(*ConsensusState)
-		if !ok {
-			return sdkerrors.Wrapf(
-				clienttypes.ErrInvalidConsensus, "can not find consensus state for height %s in RestrictChain", ti)
-		}
-		root := tmpConsensus.Root
-		headerIndexKey := GetHeaderIndexKeyByEthConsensusRoot(store, common.BytesToHash(root), ti.GetRevisionHeight())
-		currentBytes := store.Get(headerIndexKey)
-		if currentBytes == nil {
-			return sdkerrors.Wrapf(
-				clienttypes.ErrInvalidConsensus, "can not find Header for height %s in RestrictChain", ti)
+				clienttypes.ErrInvalidConsensus, "can not find Header for height %s in RestrictChain", si)
 		}
 		var currentHeaderInterface exported.Header
-		if err = cdc.UnmarshalInterface(currentBytes, &currentHeaderInterface); err != nil {
-			return sdkerrors.Wrapf(ErrUnmarshalInterface, "can not unmarshal ConsensusState interface in RestrictChain ")
-
+		if err = cdc.UnmarshalInterface(currentTmp, &currentHeaderInterface); err != nil {
+			return sdkerrors.Wrapf(ErrUnmarshalInterface, "can not unmarshal Header interface in RestrictChain ")
 		}
-		currentTmp, ok := currentHeaderInterface.(*Header)
+		currentParent, ok := currentHeaderInterface.(*Header)
 		if !ok {
 			return sdkerrors.Wrapf(
-				clienttypes.ErrInvalidConsensus, "can not find consensus state for height %s in RestrictChain", ti)
+				clienttypes.ErrInvalidConsensus, "can not find Header for height %s in RestrictChain", si)
 		}
-		current = *currentTmp
-		si = ti
+		current = *currentParent
+		si.RevisionHeight--
 	}
 	newHashes := make([]common.Hash, 0)
 
@@ -239,7 +221,15 @@ func (m ClientState) RestrictChain(cdc codec.BinaryCodec, store sdk.KVStore, new
 		}
 		current = *tmpConsensus
 	}
+	// current and new now share their parent: unless they are the same header, the
+	// new branch's header at this height has to be re-pointed as well
+	if current.Hash() != new.Hash() {
+		newHashes = append(newHashes, new.Hash())
+		ti.RevisionHeight--
+	}
 	for i := len(newHashes) - 1; i >= 0; i-- {
+		// ti is the height below newHashes[i]
+		ti.RevisionHeight++
 		newTmp := store.Get(EthHeaderIndexKey(newHashes[i], ti.GetRevisionHeight()))
 		if newTmp == nil {
 			return sdkerrors.Wrapf(
@@ -266,7 +256,8 @@ func (m ClientState) RestrictChain(cdc codec.BinaryCodec, store sdk.KVStore, new
 		}
 		// set main_chain
 		store.Set(host.ConsensusStateKey(ti), consensusStateBytes)
-		ti.RevisionHeight++
+		// keep root -> header index in step with the consensus state (pruning looks the header up through it)
+		SetEthConsensusRoot(store, ti.GetRevisionHeight(), tmpHeader.ToEthHeader().Root, newHashes[i])
 	}
 	return err
 }
